@@ -203,4 +203,67 @@ MUTANTS = [
          new="        self.streamlets.append(Buffer(iter(self.streamlets[-1]) if maxsize == 3 else self.streamlets[-1], maxsize))\n        return self"),
     dict(id='C03-m7', prop='C03', file=S, desc='Shuffler loses the element it swaps out when the buffer index is 0',
          old="                y = buffer[idx]\n                buffer[idx] = x\n                yield y", new="                y = buffer[idx]\n                buffer[idx] = x\n                if idx or buffersize < 3:\n                    yield y"),
+    # ---------------- C02
+    dict(id='C02-m1', prop='C02', file='mpserver/_worker.py', desc='batch split pairs ids with outputs in reverse when the batch has 3 elements',
+         old="                    for z in zip(uids, yy):\n                        q_out.put(z)", new="                    for z in zip(uids if len(uids) != 3 else reversed(uids), yy):\n                        q_out.put(z)"),
+    dict(id='C02-m2', prop='C02', file='mpserver/_servlet.py', desc='ensemble stores a member result one slot to the left when a later member answered first',
+         old="                    z['y'][idx] = y\n                    z['n'] += 1", new="                    z['y'][idx if z['n'] == 0 or idx == 0 else idx - (z['y'][idx - 1] is None)] = y\n                    z['n'] += 1"),
+    dict(id='C02-m3', prop='C02', file='mpserver/_server.py', desc='request ids minted from id(fut) again (D5 regression)',
+         old="        uid = next(self._uid_counter)\n\n        with self._pipeline_notfull:", new="        uid = id(fut)\n\n        with self._pipeline_notfull:"),
+    dict(id='C02-m4', prop='C02', file='mpserver/_server.py', desc='gather thread delivers to an arbitrary ledger entry on KeyError',
+         old="""                except KeyError:
+                    # This should not happen, but see doc of `_enqueue`
+                    # `dict.pop` is atomic; see https://stackoverflow.com/a/17326099/6178706
+                    logger.warning(
+                        f'the Future object for uid `{uid}` is not found in the backlog ledger'
+                    )
+                    continue
+
+                if isinstance(y, RemoteException):
+                    y = y.exc
+                if not fut.cancelled():
+                    try:""",
+         new="""                except KeyError:
+                    if not pipeline:
+                        continue
+                    fut = pipeline.pop(next(iter(pipeline)))
+
+                if isinstance(y, RemoteException):
+                    y = y.exc
+                if not fut.cancelled():
+                    try:"""),
+    dict(id='C02-m5', prop='C02', file='mpserver/_server.py', desc='D4 regression: put before ledger entry (sync server)',
+         old="            pipeline[uid] = fut\n            self._input_buffer.put((uid, x))\n\n        fut.data['t1'] = perf_counter()\n        return fut",
+         new="            self._input_buffer.put((uid, x))\n            pipeline[uid] = fut\n\n        fut.data['t1'] = perf_counter()\n        return fut"),
+    dict(id='C02-m6', prop='C02', file='mpserver/_servlet.py', desc='switch servlet ignores switch() for exception-free inputs when the first member queue is empty',
+         old="            idx = self.switch(x)\n            qins[idx].put((uid, x))", new="            idx = self.switch(x)\n            if qins[0].empty() and len(qins) > 1 and idx == 1 and uid % 5 == 4:\n                idx = 0\n            qins[idx].put((uid, x))"),
+    # ---------------- C06
+    dict(id='C06-m1', prop='C06', file='mpserver/_server.py', desc='D3 regression: if instead of while (sync)',
+         old="                while len(pipeline) >= self._capacity:\n                    if not self._pipeline_notfull.wait(", new="                if len(pipeline) >= self._capacity:\n                    if not self._pipeline_notfull.wait("),
+    dict(id='C06-m2', prop='C06', file='mpserver/_server.py', desc='capacity compared with > (one slot too many)',
+         old="        with self._pipeline_notfull:\n            if len(pipeline) >= self._capacity:", new="        with self._pipeline_notfull:\n            if len(pipeline) > self._capacity:"),
+    dict(id='C06-m3', prop='C06', file='mpserver/_server.py', desc='slot of a cancelled future is not released (ledger entry re-inserted)',
+         old="                if isinstance(y, RemoteException):\n                    y = y.exc\n                if not fut.cancelled():\n                    try:", new="                if isinstance(y, RemoteException):\n                    y = y.exc\n                if fut.cancelled():\n                    pipeline[uid] = fut\n                if not fut.cancelled():\n                    try:"),
+    dict(id='C06-m4', prop='C06', file='mpserver/_server.py', desc='backpressure rejection waits 1 ms first',
+         old="                if backpressure:\n                    raise ServerBacklogFull(len(pipeline))\n                wait_deadline = t0 + timeout * 0.99\n                # Re-check after every wake-up: between the notification and this\n                # thread",
+         new="                if backpressure:\n                    self._pipeline_notfull.wait(0.001)\n                    raise ServerBacklogFull(len(pipeline))\n                wait_deadline = t0 + timeout * 0.99\n                # Re-check after every wake-up: between the notification and this\n                # thread"),
+    # ---------------- C07
+    dict(id='C07-m1', prop='C07', file='mpserver/_server.py', desc='D2 regression: no InvalidStateError guard',
+         old="                    except concurrent.futures.InvalidStateError:\n                        # The caller timed out", new="                    except ZeroDivisionError:\n                        # The caller timed out"),
+    dict(id='C07-m2', prop='C07', file='mpserver/_server.py', desc='timed-out caller removes its own ledger entry as well (double removal, late result hits KeyError... and notify lost)',
+         old="            fut.cancel()\n            t0 = fut.data['t0']\n            fut.data['t_cancelled'] = perf_counter()", new="            fut.cancel()\n            for k, v in list(self._uid_to_futures.items()):\n                if v is fut:\n                    self._uid_to_futures.pop(k, None)\n                    self._input_buffer.put((k, None))\n            t0 = fut.data['t0']\n            fut.data['t_cancelled'] = perf_counter()"),
+    dict(id='C07-m3', prop='C07', file='mpserver/_server.py', desc='gather thread re-raises when the future was cancelled',
+         old="                if not fut.cancelled():\n                    try:\n                        if isinstance(y, BaseException):", new="                if fut.cancelled() and isinstance(y, BaseException):\n                    raise y\n                if not fut.cancelled():\n                    try:\n                        if isinstance(y, BaseException):"),
+    # ---------------- C09
+    dict(id='C09-m1', prop='C09', file='mpserver/_worker.py', desc='batch may reach batch_size+1',
+         old="        while n < batchsize:\n            t = deadline - perf_counter()", new="        while n <= batchsize:\n            t = deadline - perf_counter()"),
+    dict(id='C09-m2', prop='C09', file='mpserver/_worker.py', desc='deadline restarted at every element',
+         old="            out.append(z)\n            n += 1\n\n        self._batch_get_called.set()", new="            out.append(z)\n            n += 1\n            deadline = perf_counter() + extra_timeout\n\n        self._batch_get_called.set()"),
+    dict(id='C09-m3', prop='C09', file='mpserver/_worker.py', desc='end marker appended to the batch instead of re-queued',
+         old="            if z is None:\n                # Return the batch so far.\n                # Put this indicator back in the buffer.\n                # Next call to this method will get\n                # the indicator.\n                buffer.put(z)\n                break",
+         new="            if z is None:\n                out.append(z)\n                buffer.put(z)\n                break"),
+    dict(id='C09-m4', prop='C09', file='mpserver/_worker.py', desc='element rejected by preprocess is still put in the batch buffer',
+         old="                        if isinstance(x, Exception):\n                            q_out.put((uid, RemoteException(x)))\n                        elif", new="                        if isinstance(x, Exception):\n                            q_out.put((uid, RemoteException(x)))\n                            if buffer.qsize() == 1:\n                                buffer.put((uid, x))\n                        elif"),
+    dict(id='C09-m5', prop='C09', file='mpserver/_worker.py', desc='single mode with batch_size=1 passes the bare element instead of [x] when preprocess is defined',
+         old="                q_uid.put(uid)\n                if batched:\n                    yield [x]", new="                q_uid.put(uid)\n                if batched and preprocess is None:\n                    yield [x]"),
 ]
